@@ -502,6 +502,8 @@ func genLookupLists(run *vlib.Run, r *vlib.Rand, tier string) {
 	add(mk(300, 19), "ll:objects=6000-300-lookups")
 	add(mk(300, 20), "ll:objects=6300")
 
+	genBoundary(run, r, tier, add)
+
 	n := vlib.Count(tier, 250, 6000)
 	for k := 0; k < n; k++ {
 		nl := vlib.Pick(r, []int{1, 2, 3, 5, 8, 20})
